@@ -122,6 +122,34 @@ func c05Generate(c *mon.Ctx) {
 		}
 	}
 
+	// one operand's Z occupies a single stored limb, the other operand is scaled so that a cross product of the equality test
+	// (X2*Z1, Y2*Z1) has a small stored value: where a short-operand multiplication path must get its last carry right
+	small := gen.SmallStoredTargets()
+
+	for i, pv := range pool.NonInf {
+		if i%2 != 0 {
+			continue
+		}
+
+		for j, sl := range gen.SingleLimbStored() {
+			l1 := oracle.FromMont(sl, oracle.P)
+			r1 := gen.Repr{Kind: "scaled", L: l1}
+
+			for k := 0; k < 6; k++ {
+				t := small[(i+j*5+k*7)%len(small)]
+				which := []string{"X2Z1", "Y2Z1"}[k%2]
+
+				if r2, ok := gen.ReprPairHitting(pv.P, pv.P, l1, which, t); ok {
+					a, b := mon.MkElemCase(pv, r1), mon.MkElemCase(pv, r2)
+					nb := mon.MkElemCase(gen.PV{P: oracle.Neg(pv.P), Tag: "-P"}, r2)
+					c.Structured(func() any { return &c05Case{A: a, B: b, Rel: "P"} })
+					c.Structured(func() any { return &c05Case{A: b, B: a, Rel: "P"} })
+					c.Structured(func() any { return &c05Case{A: a, B: nb, Rel: "-P"} })
+				}
+			}
+		}
+	}
+
 	// history cases
 	hr := c.SharedRng("moves")
 
